@@ -42,6 +42,7 @@ fn main() {
         "c19" => drivers::c19::drive(&rest),
         "c20" => drivers::c20::drive(&rest),
         "c20child" => drivers::c20::child(&rest),
+        "c20builder" => drivers::c20::builder(&rest),
         "c20macro-gen" => drivers::c20::macro_gen(&rest),
         "c20macro-cmp" => drivers::c20::macro_cmp(&rest),
         "pipe" => drivers::pipe::drive(&rest),
